@@ -1,2 +1,2 @@
 #include "c01_exec.h"
-namespace c01 { void run_stable(vh::Case& c, const stc::History& h) { exec_history<stc::Opt_stable>(c, h, "stable"); } }
+namespace c01 { void run_stable(vh::Case& c, const stc::History& h, int sample) { exec_history<stc::Opt_stable>(c, h, "stable", sample); } }
